@@ -55,7 +55,7 @@ def bystander():
     return hw
 
 
-# wall-clock budget of ONE explored graph, seconds (the largest graph of the unchanged tree takes about 100 s in the thorough tier)
+# CPU-time budget of ONE explored graph, seconds (the largest graph of the unchanged tree takes about 100 s in the thorough tier)
 SHARD_BUDGET_S = float(os.environ.get('VERIF_GRAPH_BUDGET_S', '900'))      # the runner sets 45 (quick) / 1500 (thorough)
 
 
@@ -351,11 +351,12 @@ class Explorer:
         self.states = 1
         order = [k0]
         import time
-        t_end = time.time() + SHARD_BUDGET_S
+        t_end = time.process_time() + SHARD_BUDGET_S
         while frontier:
-            if self.states % 512 == 0 and time.time() > t_end:
-                # wall-clock budget of one graph (a changed implementation with a hidden counter can make a graph that closes in
-                # seconds practically infinite): stop, report what was found so far, evidence says capped
+            if self.states % 512 == 0 and time.process_time() > t_end:
+                # CPU-time budget of one graph (a changed implementation with a hidden counter can make a graph that closes in
+                # seconds practically infinite): stop, report what was found so far, evidence says capped.  CPU time of this
+                # shard process, not wall-clock time: what is explored does not depend on how busy the machine is
                 self.capped = True
                 self.budget_exhausted = True
                 break
